@@ -87,7 +87,7 @@ func (w *World) Share(sender int, id, kind string) *shcrypto.EpochSecretKeyShare
 	switch kind {
 	case "valid":
 		return w.Keys.EpochSecretKeyShare(ip, sender)
-	case "otherId":
+	case "otherId", "swap": // "swap" without message context (see ShareInMsg) falls back to otherId
 		return w.Keys.EpochSecretKeyShare(identitypreimage.IdentityPreimage(append([]byte("other-"), ip...)), sender)
 	case "otherEon":
 		return w.Other.EpochSecretKeyShare(ip, sender)
@@ -96,6 +96,27 @@ func (w *World) Share(sender int, id, kind string) *shcrypto.EpochSecretKeyShare
 	default: // garbage
 		return w.Junk.EpochSecretKeyShare(identitypreimage.IdentityPreimage([]byte("junk")), (sender+1)%w.N)
 	}
+}
+
+// ShareInMsg concretises a share token that sits in a message carrying the identities msgIds (in
+// message order). It is Share for every kind except
+//
+//	"swap": the sender's VALID share (same eon key, same keyper) for the OTHER identity of the same
+//	        message, i.e. for the first element of msgIds that differs from id, presented under id.
+//	        In a message <<A, B>> with kinds (swap, swap) keyper s's real share for B is attached
+//	        to A and its real share for A to B: every single share fails the pairing check, but the
+//	        sum of the shares matches the sum of the epoch ids (catches aggregated/batched checks).
+//	        If the message names no other identity (one identity, or the same one twice) "swap" is
+//	        the same object as "otherId".
+func (w *World) ShareInMsg(sender int, id, kind string, msgIds []string) *shcrypto.EpochSecretKeyShare {
+	if kind == "swap" {
+		for _, o := range msgIds {
+			if o != id {
+				return w.Keys.EpochSecretKeyShare(w.Identity(o), sender)
+			}
+		}
+	}
+	return w.Share(sender, id, kind)
 }
 
 // PureResult is the DKG result keyper k would hold.
